@@ -10,6 +10,7 @@ import (
 
 	"github.com/gregoryv/mq"
 
+	"verif/mc/bind"
 	"verif/mc/core"
 	"verif/mc/env"
 	"verif/mc/gen"
@@ -30,6 +31,7 @@ func init() {
 		Rule: "explicit enumeration of operation histories on the real decoder: every sequence of length 1..2 over the whole frame alphabet (valid minimal+rich frames of all 15 types, short forms, remaining-length-0 frames of all 16 first-byte types, content-malformed frames) and every sequence of length 3 over a sub-alphabet (quick: 18 frames incl. a 5 000-byte frame; thorough: the whole alphabet), each followed by every tail in {none, 00, ff ff ff ff ff, first byte of a header, a whole further frame}, and each handed to ReadPacket through eleven io.Reader implementations (a counting reader; a reader of own type with a Close method - after Close every Read fails, so a decoder that closes the caller's reader loses the rest of the stream; bufio.Reader with a 16-byte and a 4096-byte buffer, and one that already holds data when handed over; a reader of its own type offering ReadByte/Peek/Discard/Buffered/WriteTo; io.LimitedReader; bytes.Buffer; bytes.Reader; strings.Reader — a decoder may special-case what a reader can do; plus six buffering readers over a source that hands over 1-7 bytes per Read, so that the buffer ends inside frames). " +
 			"After each call: bytes drawn from the counting reader == 1+|remaining length field|+remaining length of that frame; result i equals the result of reading frame i alone (history and tail independence); every packet returned by an earlier call is observed again after the last call and must be unchanged (a frame's result depends on its own bytes only); with no tail the call after the last frame returns an error satisfying errors.Is(err, io.EOF). " +
 			"Caller-owned packets: every sequence of length >= 2 is also read with the caller changing every returned packet through the setters of its type before the next call; later results must not depend on it (a decoder that hands out shared pre-built packets). " +
+			"Reused reader objects: for every frame up to 300 bytes, a read that fails inside it (after 1 byte, at and after the end of the fixed header, half way, one byte before the end; opaque, net-timeout and EOF-wrapping errors) is followed by putting the SAME reader object onto a new stream of two frames, which must be returned exactly. " +
 			"Map orders: every frame of the alphabet, and every rich frame of V with one more property (each defined identifier, zero and non-zero value) inserted at every property boundary, is decoded under six orderings of every map range the decoder meets (instrumenter's map-range seam; all n! orderings for n <= 3): the result must be the result under the sorted walk. " +
 			"states = distinct (sequence prefix) stream positions visited, transitions = ReadPacket calls; distinct_nontrivial = distinct (sequence, tail) of length >= 2.",
 		Assumptions: []string{
@@ -339,6 +341,31 @@ func runC06(x *core.Ctx) {
 	if !c06MapOrders(x, frames, alone) {
 		return
 	}
+	// the same reader OBJECT put onto a new stream after a read that failed
+	// inside a frame (a pooled wrapper, bufio.Reader.Reset): the new stream
+	// is read from its first byte, whatever the old one left unfinished
+	for fi, f := range frames {
+		if len(f.B) > 300 || len(f.B) < 3 || !x.Mine() {
+			continue
+		}
+		hl := c06HeaderLen(f.B)
+		for _, k := range []int{1, hl, hl + 1, len(f.B) / 2, len(f.B) - 1} {
+			if k <= 0 || k >= len(f.B) {
+				continue
+			}
+			for _, ek := range []env.ErrKind{env.EPlain, env.ENetTemporary, env.EWrapsEOF} {
+				fi, k, ek := fi, k, ek
+				x.Eval("reader-object-reused-after-a-failed-read")
+				x.R.Transitions += 3
+				x.R.Traces++
+				if fd := c06Reused(frames[fi], k, ek); fd != nil {
+					x.Report(fd, func() core.Case {
+						return core.Case{Harness: "c06", Frame: hexOf(frames[fi].B), Params: map[string]any{"reused": true, "k": k, "errkind": int(ek), "name": frames[fi].Name}}
+					}, func() *core.Finding { return c06Reused(frames[fi], k, ek) })
+				}
+			}
+		}
+	}
 	inSub := map[int]bool{}
 	for _, i := range sub {
 		inSub[i] = true
@@ -480,7 +507,33 @@ func c06MapOrders(x *core.Ctx, frames []CFrame, alone []string) bool {
 	return true
 }
 
+func c06Reused(f CFrame, k int, ek env.ErrKind) *core.Finding {
+	resetGlobals()
+	E := env.NewError(ek, "E")
+	r := &env.Reader{Data: f.B[:k], End: env.EndErr, E: E}
+	readPacket(r, stepBudget(len(f.B))) // fails inside the frame (C08 judges how)
+	fresh := []byte{0x40, 0x02, 0x00, 0x07, 0xc0, 0x00}
+	r.Reset(fresh)
+	mk := func(what string) *core.Finding {
+		return &core.Finding{Class: "old-stream-leaks-into-reused-reader/" + ek.String(), Sig: map[string]string{"frame": f.Name, "error": ek.String()},
+			Detail: fmt.Sprintf("a read of frame %s (%s) failed after %d bytes with a %s error; the same reader object was then put onto a new stream (40 02 00 07 c0 00): %s", f.Name, abbrevHex(f.B), k, ek, what)}
+	}
+	p1, err1, res1 := readPacket(r, stepBudget(8))
+	if res1.Panic != "" || res1.Budget || err1 != nil || p1 == nil || bind.TypeOf(p1) != 4 || r.Off != 4 {
+		return mk(fmt.Sprintf("first call returned %v, err %v %s and drew %d bytes; want the PUBACK of 4 bytes", p1, err1, res1.Panic, r.Off))
+	}
+	p2, err2, res2 := readPacket(r, stepBudget(8))
+	if res2.Panic != "" || res2.Budget || err2 != nil || p2 == nil || bind.TypeOf(p2) != 12 || r.Off != 6 {
+		return mk(fmt.Sprintf("second call returned %v, err %v %s, %d bytes drawn in all; want the PINGREQ", p2, err2, res2.Panic, r.Off))
+	}
+	return nil
+}
+
 func replayC06(c core.Case) *core.Finding {
+	if ru, _ := c.Params["reused"].(bool); ru {
+		b := unhex(c.Frame)
+		return c06Reused(CFrame{Name: fmt.Sprint(c.Params["name"]), B: b, Type: b[0] >> 4}, paramInt(c.Params, "k"), env.ErrKind(paramInt(c.Params, "errkind")))
+	}
 	if _, ok := c.Params["maporder"]; ok {
 		b := unhex(c.Frame)
 		return c06OrderExec(CFrame{Name: fmt.Sprint(c.Params["name"]), B: b, Type: b[0] >> 4}, paramInt(c.Params, "maporder"))
